@@ -126,14 +126,15 @@ def run_real(sc: Scenario, mode, workdir, serial=True, cpus=2, rids=None, qids=N
     finally:
         for n, f in old_maps.items():
             setattr(wc, n, f)
-    out = {}
+    out, headers = {}, {}
     base, ext = os.path.splitext(opath)
     for n, p in [(0, opath), (1, f"{base}_1{ext}"), (2, f"{base}_2{ext}")]:
         if os.path.exists(p):
             out[n] = [l.rstrip("\n") for l in open(p) if not l.startswith("#") and l.strip()]
+            headers[n] = [l.rstrip("\n") for l in open(p) if l.startswith("#")]
     seeds = [json.loads(l) for l in open(seedpath)] if os.path.exists(seedpath) else []
     return {"files": out, "seeds": seeds, "error": err, "paths": {0: opath, 1: f"{base}_1{ext}", 2: f"{base}_2{ext}"},
-            "argv": argv}
+            "argv": argv, "headers": headers, "inputs": (os.path.abspath(rpath), os.path.abspath(qpath))}
 
 
 def seeds_to_table(seeds):
@@ -191,20 +192,30 @@ def rows_str(mols, shuffle_seed=None):
     return ",".join(f"{mid}:{chan}:{int(p)}" for (mid, length, n, site, chan, p) in rows)
 
 
-def run_line(sc: Scenario, mode, seeds, rids=None, qids=None, it=1):
-    P = sc.P
+def scaled_params(sc):
+    """the model computes with integer scores: every score parameter is multiplied by the denominator `den` of the distance
+    penalty multiplier (-dp may be a dyadic fraction such as 0.25, for which the real float arithmetic is exact), and so
+    is the join multiplier; returns (parameter string, multiplier string, den)"""
     from fractions import Fraction
-    mult = Fraction(str(sc.extra_args.get("-sj", 1)))
-    mult = f"{mult.numerator}/{mult.denominator}"
+    P = sc.P
+    dp = Fraction(str(P["dp"]))
+    den = dp.denominator
+    Ps = {"sp": P["sp"] * den, "dp": dp.numerator, "su": P["su"] * den, "md": P["md"], "ms": P["ms"] * den, "bs": P["bs"] * den}
+    mult = Fraction(str(sc.extra_args.get("-sj", 1))) * den
+    return gens.pstr(Ps), f"{mult.numerator}/{mult.denominator}", den
+
+
+def run_line(sc: Scenario, mode, seeds, rids=None, qids=None, it=1):
+    pstr, mult, den = scaled_params(sc)
     var = sc.extra_args.get("-ss", 0)
     diff = sc.extra_args.get("-diff", 100000)
     res2, blur2, margin, thr = sec_cfg(sc)
     if any("cstart" not in s for s in seeds):       # replay of a scenario recorded before the secondary stage was modelled
-        return (f"RUN mode={mode} {gens.pstr(P)} mult={mult} var={var} diff={diff} den=1 it={it} "
+        return (f"RUN mode={mode} {pstr} mult={mult} var={var} diff={diff} den={den} it={it} "
                 f"rids={','.join(map(str, rids or []))} qids={','.join(map(str, qids or []))} "
                 f"REFROWS={rows_str(sc.refs)} QRYROWS={rows_str(sc.queries)} SEEDS={encode_seeds(seeds)}")
     # the secondary stage is inside the model: only the selected PRIMARY peaks are handed over
-    return (f"RUN mode={mode} {gens.pstr(P)} mult={mult} var={var} diff={diff} den=1 it={it} "
+    return (f"RUN mode={mode} {pstr} mult={mult} var={var} diff={diff} den={den} it={it} "
             f"sec={res2},{blur2},{margin},{thr.numerator}/{thr.denominator} "
             f"rids={','.join(map(str, rids or []))} qids={','.join(map(str, qids or []))} "
             f"REFROWS={rows_str(sc.refs)} QRYROWS={rows_str(sc.queries)} PSEEDS={encode_pseeds(seeds, margin)}")
@@ -298,7 +309,7 @@ def gen_scenario(rng: random.Random, kind=None) -> Scenario:
     extra = {}
     if kind == "params":
         P = gens.rand_params(rng)
-        P.update({"sp": rng.choice([1000, 1100, 1500]), "dp": rng.choice([1, 2]), "su": rng.choice([-250, -300, -100]),
+        P.update({"sp": rng.choice([1000, 1100, 1500]), "dp": rng.choice([1, 2, 0.5, 0.25, 0.75, 1.5]), "su": rng.choice([-250, -300, -100]),
                   "md": rng.choice([1500, 1300, 2000]), "ms": rng.choice([1000, 900, 2000]), "bs": rng.choice([1200, 1150, 600])})
         extra["-p"] = rng.choice([1, 2, 3, 5])
         if rng.random() < 0.5:
@@ -694,3 +705,14 @@ def tie_flank_query(rng, R, qid):
     base = pos[-1] + gap
     pos += [base + p for p in B]
     return (qid, pos[-1] + 1, pos)
+
+
+def header_line(res):
+    """protocol line that makes the model print the deterministic header lines of the files of this run"""
+    r, q = res["inputs"]
+    return f"HEADER ref={r} qry={q}"
+
+
+def real_headers(res):
+    """per file: the header lines after the host-name and argument-echo lines, in the model's canonical form"""
+    return {n: "\\n".join(l.replace("\t", "|") for l in h[2:]) for n, h in res.get("headers", {}).items()}
